@@ -1,5 +1,6 @@
 import SqlObjVerif.Lemmas.Expr
 import SqlObjVerif.Lemmas.ExprXTop
+import SqlObjVerif.Lemmas.SelXTables
 /-!
 # C03 — query expressions mean what was built (property theorems only)
 
@@ -483,3 +484,124 @@ example :
       (fun v => sqlreprX P0 4 v (strOf "mysql")) = .ok (.str (strOf "((MOD(- t.b, t.a)) > (1))")) := by
   constructor <;> rfl
 end SqlObjVerif.ExprX
+
+namespace SqlObjVerif.SelX
+open SqlObjVerif.PyExpr hiding Expr Exprs Stmt Block Res
+open SqlObjVerif.PySel SqlObjVerif.PySel.Extracted
+open SqlObjVerif.ExprX (Node toVal)
+
+/-! ## C03 about the TRANSLATED `sqlbuilder.Select` class (`Extracted/PySel.lean`; dicts live in a heap) -/
+
+/-- `Select.__init__` as translated: ONE fresh dict, the 15 entries of `initOps` (a non-sequence `items` wrapped in a
+    list, `where` used when no `clause` is given, `staticTables` defaulting to `[]`), nothing else written -/
+theorem C03_translated_Select_init_eq_model (I : SIface) (hsub : ∀ h, (I.E h).isSub = ExprX.isSub) (h : Heap)
+    (items where_ groupBy having orderBy limit join lazy distinct start end_ reversed forUpdate clause static
+      distinctOn : Val) :
+    runInitH I Select_init [.obj "Select" [], items, where_, groupBy, having, orderBy, limit, join, lazy, distinct, start,
+      end_, reversed, forUpdate, clause, static, distinctOn] h =
+    .ok (selObj h.next, (h.alloc (opsDict (initOps items where_ groupBy having orderBy limit join lazy distinct start end_
+      reversed forUpdate clause static distinctOn))).1) :=
+  Select_init_spec I hsub h _ _ _ _ _ _ _ _ _ _ _ _ _ _ _ _
+
+/-- `Select.clone(**newOps)` as translated, for every interface: `self.ops` (address `p`) is only READ — the copy at
+    the allocation pointer is updated and handed (copied again, as `**` does) to `self.__class__` -/
+theorem C03_translated_Select_clone_eq_model (I : SIface) (h : Heap) (p q : Nat) (d kw : Dict)
+    (hp : h.cells p = some d) (hq : h.cells q = some kw) (hq' : q ≠ h.next) :
+    runH I Select_clone [selObj p, refV q] h =
+      I.callH (selObj p) "__class__" [] (h.next + 1) ((h.alloc (dupdate d kw)).1.alloc (dupdate d kw)).1 :=
+  Select_clone_spec I h p q d kw hp hq hq'
+
+/-- **deriving never writes the base Select's ops**: through the tied interface (clone → `__class__` → the translated
+    `__init__`), for ANY ops dict and ANY keywords, a returning `clone` yields a Select whose ops dict is at a NEW address
+    and leaves every cell that existed before — the base's `ops` included — exactly as it was -/
+theorem C03_translated_Select_clone_fresh (P : ExprX.Params) (Q : ParamsQ) (k : Nat) (h : Heap) (p q : Nat)
+    (d kw : Dict) (hp : h.cells p = some d) (hq : h.cells q = some kw) (hq' : q < h.next) (v : Val) (h' : Heap)
+    (hr : runH (sIfaceF P Q (k + 2)) Select_clone [selObj p, refV q] h = .ok (v, h')) :
+    v = selObj (h.next + 2) ∧ (∀ a, a < h.next → h'.cells a = h.cells a) ∧
+      ∃ o, h'.cells (h.next + 2) = some (opsDict o) :=
+  clone_fresh P Q k h p q d kw hp hq hq' v h' hr
+
+/-- the derivers are `clone(<key>=<value>)` (`limit` derives a Select, drops it and returns `None`: what the code does) -/
+theorem C03_translated_Select_derivers_eq_model (I : SIface) (h : Heap) (self x : Val) :
+    runH I Select_newItems [self, x] h = I.callH self "clone" [] h.next (h.alloc [(k_items, x)]).1 ∧
+    runH I Select_newClause [self, x] h = I.callH self "clone" [] h.next (h.alloc [(k_clause, x)]).1 ∧
+    runH I Select_orderBy [self, x] h = I.callH self "clone" [] h.next (h.alloc [(k_orderBy, x)]).1 ∧
+    runH I Select_lazyColumns [self, x] h = I.callH self "clone" [] h.next (h.alloc [(k_lazyColumns, x)]).1 ∧
+    runH I Select_distinct [self] h = I.callH self "clone" [] h.next (h.alloc [(k_distinct, .bool true)]).1 ∧
+    runH I Select_unlimited [self] h = I.callH self "clone" [] h.next
+      (h.alloc [(k_limit, noDefault), (k_start, .int 0), (k_end, .none)]).1 ∧
+    (∀ v h', I.callH self "clone" [] h.next (h.alloc [(k_limit, x)]).1 = .ok (v, h') →
+      runH I Select_limit [self, x] h = .ok (.none, h')) :=
+  ⟨Select_newItems_spec I h self x, Select_newClause_spec I h self x, Select_orderBy_spec I h self x,
+    Select_lazyColumns_spec I h self x, Select_distinct_spec I h self, Select_unlimited_spec I h self,
+    fun v h' hc => Select_limit_spec I h self x v h' hc⟩
+
+theorem C03_translated_Select_reversed_eq_model (I : SIface) (h : Heap) (p : Nat) (d : Dict)
+    (hp : h.cells p = some d) :
+    runH I Select_reversed [selObj p] h = I.callH (selObj p) "clone" [] h.next
+      (h.alloc [(k_reversed, .bool (!truthyS ((aget k_reversed d).getD (.bool false))))]).1 :=
+  Select_reversed_spec I h p d hp
+
+/-- `base.newClause(x)` through clone and `__init__`: the base's ops with `clause := x`, at a fresh address -/
+theorem C03_translated_Select_newClause_eq_model (P : ExprX.Params) (Q : ParamsQ) (k : Nat) (h : Heap) (p : Nat)
+    (o : OpsM) (hc : Canon o) (hp : h.cells p = some (opsDict o)) (hpn : p < h.next) (x : Val) :
+    ∃ h', runH (sIfaceF P Q (k + 3)) Select_newClause [selObj p, x] h = .ok (selObj (h.next + 3), h') ∧
+      h'.cells (h.next + 3) = some (opsDict { o with clause := x }) ∧ ∀ a, a < h.next → h'.cells a = h.cells a :=
+  newClause_run P Q k h p o hc hp hpn x
+
+/-- **`filter` = AND of the clauses in the model**: for a base Select whose clause is the object of the source tree `A`,
+    `base.filter(<object of C>)` on the translated source (`AND` → `newClause` → `clone` → `__init__`) is a NEW Select
+    whose clause is the object of `AND(A, C)` (`build (.andFn A C)`), every other option equal, the base untouched;
+    `base.filter(None)` is `base` and changes nothing -/
+theorem C03_translated_Select_filter_eq_model (P : ExprX.Params) (Q : ParamsQ) (k : Nat) (h : Heap) (p : Nat)
+    (o : OpsM) (hc : Canon o) (A C : Expr.BoolE) (hA : o.clause = toVal P (Expr.buildB A))
+    (hp : h.cells p = some (opsDict o)) (hpn : p < h.next) :
+    (∃ h', runH (sIfaceF P Q (k + 4)) Select_filter [selObj p, toVal P (Expr.buildB C)] h =
+        .ok (selObj (h.next + 4), h') ∧
+      h'.cells (h.next + 4) = some (opsDict { o with clause := toVal P (Expr.buildB (.andFn A C)) }) ∧
+      ∀ a, a < h.next → h'.cells a = h.cells a) ∧
+    runH (sIfaceF P Q k) Select_filter [selObj p, .none] h = .ok (selObj p, h) := by
+  refine ⟨?_, filter_none_run P Q k h _⟩
+  have hobjA := ExprX.isObj_build_bool A
+  have hobjC := ExprX.isObj_build_bool C
+  have hstr : ExprX.isSub (typeName o.clause) "str" = false := by
+    rw [hA, ExprX.typeName_toVal, ExprX.nodeCls_build]
+    rcases (ExprX.clsE_bool A).1 with e | e <;> rw [e] <;> decide
+  have hfc : isNoneV (toVal P (Expr.buildB C)) = false := by
+    rw [ExprX.isNoneV_toVal, ExprX.nodeCls_build]
+    rcases (ExprX.clsE_bool C).1 with e | e <;> rw [e] <;> decide
+  obtain ⟨h', h1, h2, h3⟩ := filter_run P Q k h p o hc hp hpn (toVal P (Expr.buildB C)) hfc hstr
+    (by rw [hA]; exact ExprX.notSub_toVal P _)
+  refine ⟨h', h1, ?_, h3⟩
+  rw [h2, hA]; rfl
+
+/-- `filter_sound` for Select objects: the clause the derived Select carries (`AND(A, C)`) renders, by the translated
+    renderers, to a text whose tokens the reference parser reads — under every precedence table — as a filter selecting
+    exactly the rows on which BOTH trees are TRUE (three-valued logic) -/
+theorem C03_translated_Select_filter_sound (P : ExprX.Params) (hT : ExprX.TextOk P)
+    (hfp : ∀ c v, P.fromPython c v = .ok v) (D : Expr.Dom) (Pr : Expr.Prec) (d : String) (A C : Expr.BoolE)
+    (r : Expr.Row D) :
+    ∃ toks t, ExprX.Emits P d (.andFn A C) toks ∧ Expr.parse Pr toks = some t ∧
+      (Expr.selects D t r = true ↔ Expr.evalB D r A = some true ∧ Expr.evalB D r C = some true) := by
+  obtain ⟨toks, t, he, hp, hs⟩ := ExprX.C03_filter_sound_translated P hT hfp D Pr d (.andFn A C) r
+  refine ⟨toks, t, he, hp, ?_⟩
+  rw [hs]
+  simp only [Expr.evalB, Expr.eval]
+  generalize (Expr.eval D r A : Option Bool) = a
+  generalize (Expr.eval D r C : Option Bool) = c
+  rcases a with _ | _ | _ <;> rcases c with _ | _ | _ <;> simp [Expr.and3]
+
+/-- **tables used**: `tablesUsedSet(node, db)` run through the translated `SQLExpression.tablesUsedSet /
+    tablesUsedImmediate / components` (each resolved along the class chain: `Field`, `SQLOp`, `SQLPrefix` override) is
+    the hand model: the set of table names of the fields below the node — NOT descending into list operands -/
+theorem C03_translated_tablesUsed_eq_model (P : ExprX.Params) (Q : ParamsQ) (h : Heap) (db : Val) (n : Node)
+    (k : Nat) (hk : 2 * depthT n + 3 ≤ k) :
+    ((sIfaceF P Q k).E h).call "tablesUsedSet" [toVal P n, db] = .ok (tuV P n) :=
+  tablesUsed_toVal P Q h db n k hk
+
+/-- why b-c03's note holds: the column of an `IN`-list item is not among the tables of the expression -/
+example (P : ExprX.Params) :
+    tuV P (.sqlin (.field 0) (.lcons (.field 1) .lnil)) = setV [.str (P.table 0)] := by
+  simp [tuV, ExprX.isObjNode, tablesL, setUnion, setAdd]
+
+end SqlObjVerif.SelX
